@@ -23,6 +23,8 @@ Inductive c22case :=
    of id by a new process: its result and the disk afterwards *)
 | C22Crash (d : disk) (id : list N) (ideal : N) (data : list N) (p : c22point)
            (crashed : disk) (res : gobs) (after : disk)
+(* a lookup of id through a READ-ONLY registry on disk state d: result and disk afterwards *)
+| C22ReadRO (d : disk) (id : list N) (ideal : N) (res : gobs) (after : disk)
 (* a reader dies k bytes into its restore write *)
 | C22ReadCrash (d : disk) (k : N) (crashed : disk)
 (* lock-free lookup of id next to a non-crashing update: block read in phase p1, backup looked
@@ -49,6 +51,9 @@ Definition c22_check (c : c22case) : bool :=
       let dc := reg_update_crash crc32p reader_in_repo d id (N.to_nat ideal) data (to_wpoint p) in
       let '(d', r) := reg_get crc32p reader_in_repo dc id (N.to_nat ideal) in
       disk_eqb dc crashed && gres_matches r res && disk_eqb d' after
+  | C22ReadRO d id ideal res after =>
+      let '(d', r) := reg_get_ro crc32p reader_in_repo d id (N.to_nat ideal) in
+      gres_matches r res && disk_eqb d' after
   | C22ReadCrash d k crashed => disk_eqb (restore_crash crc32p d (N.to_nat k)) crashed
   | C22Conc d id ideal data p1 p2 res =>
       match new_of d id (N.to_nat ideal) data with
